@@ -117,10 +117,60 @@ pub fn check_scenario(s: &Scenario) -> Result<&'static str, Fail> {
     }
 }
 
+/// every fourth scenario: some ranges / sizes become degenerate (`n..n`, written as a range, with
+/// and without extension marker) - the normalisations of equal bounds must not depend on whether
+/// the bounds are literals or references
+fn make_degenerate(m: &mut Module, r: &mut Rand) {
+    fn size(s: &mut Option<Size>, r: &mut Rand) {
+        if let Some(s) = s {
+            if s.ub.is_some() && r.chance(60) {
+                s.ub = Some(Num::lit(s.lb.value));
+                s.fixed = false;
+                s.ext = r.chance(50);
+            }
+        }
+    }
+    fn walk(t: &mut Type, r: &mut Rand) {
+        match t {
+            Type::Integer { range: Some(rg), .. } => {
+                if let (Some(lb), Some(_)) = (&rg.lb, &rg.ub) {
+                    if r.chance(40) {
+                        rg.ub = Some(Num::lit(lb.value));
+                        rg.ext = r.chance(50);
+                    }
+                }
+            }
+            Type::BitString { size: s, .. } | Type::OctetString { size: s } | Type::Str { size: s, .. } => size(s, r),
+            Type::SequenceOf { elem, size: s } | Type::SetOf { elem, size: s } => {
+                size(s, r);
+                walk(elem, r);
+            }
+            Type::Sequence(f) | Type::Set(f) => {
+                for c in &mut f.comps {
+                    // (a DEFAULT must stay inside its type: leave those components alone)
+                    if !matches!(c.presence, Presence::Default(_)) {
+                        walk(&mut c.ty, r);
+                    }
+                }
+            }
+            Type::Choice { alts, .. } => alts.iter_mut().for_each(|a| walk(&mut a.ty, r)),
+            _ => {}
+        }
+    }
+    for a in &mut m.body {
+        if let Assignment::Type(d) = a {
+            walk(&mut d.ty, r);
+        }
+    }
+}
+
 /// builds the scenario from a literal-only module and a salt
 pub fn build(base: &Module, salt: u64) -> Scenario {
     let mut r = Rand(salt | 1);
     let mut lit = base.clone();
+    if salt % 4 == 0 {
+        make_degenerate(&mut lit, &mut r);
+    }
     lit.name = "Main-Unit".into();
     let literal = module_text(&lit);
     let mut main = lit.clone();
@@ -249,7 +299,7 @@ pub fn build(base: &Module, salt: u64) -> Scenario {
     Scenario { texts, main_name: "Main-Unit".into(), literal, negative, sites_replaced: assigns.len(), placement }
 }
 
-const RULE: &str = "a literal-only module A (roundtrip profile, proptest) is turned into a referencing variant: a random subset of its literal sites (INTEGER bounds, SIZE bounds, DEFAULT values of INTEGER / BOOLEAN / strings) is replaced by fresh value references whose assignments are placed before the use, after the use, or in one of 1..3 sibling modules imported by name only, by OID only (the name in the import differs) or by both; every load order of all modules into MultiModuleResolver (and Model::try_resolve when there is only one module). Oracle: the resolved definitions of the referencing module == those of the literal module (asn1rs's own PartialEq) for every load order. Negative variants (must give Err for every load order): assignment missing everywhere; import removed while a same-named assignment exists in a loaded, non-imported sibling; exporting module not loaded; BOOLEAN / character string / hstring / bstring value assigned where a range or size bound needs an integer. Non-trivial: >= 1 site replaced; distinct = hash of (texts, negative kind).";
+const RULE: &str = "a literal-only module A (roundtrip profile, proptest; in every fourth case some ranges / sizes are made degenerate `n..n` with and without extension marker) is turned into a referencing variant: a random subset of its literal sites (INTEGER bounds, SIZE bounds, DEFAULT values of INTEGER / BOOLEAN / strings) is replaced by fresh value references whose assignments are placed before the use, after the use, or in one of 1..3 sibling modules imported by name only, by OID only (the name in the import differs) or by both; every load order of all modules into MultiModuleResolver (and Model::try_resolve when there is only one module). Oracle: the resolved definitions of the referencing module == those of the literal module (asn1rs's own PartialEq) for every load order. Negative variants (must give Err for every load order): assignment missing everywhere; import removed while a same-named assignment exists in a loaded, non-imported sibling; exporting module not loaded; BOOLEAN / character string / hstring / bstring value assigned where a range or size bound needs an integer. Non-trivial: >= 1 site replaced; distinct = hash of (texts, negative kind).";
 
 pub fn run(ctx: Ctx) -> i32 {
     let report = Report::new(ctx.clone(), RULE);
